@@ -125,7 +125,7 @@ SHRINK_SKIP = {"text", "resources"}
 
 
 def shards(tier, seed):
-    n = 800 if tier == "thorough" else 70
+    n = 2500 if tier == "thorough" else 250
     return [{"seed": seed, "lo": i * n, "hi": (i + 1) * n} for i in range(16)]
 
 
